@@ -118,6 +118,19 @@ func init() {
 		}}
 }
 
+func init() {
+	Checks["C16"] = &Check{Level: "model_checking", Run: CheckC16, QuickBudget: 300, ThoroughBudget: 1800,
+		ReplayBody: func(h string) explore.Body {
+			for _, sc := range c16Scenarios(true) {
+				if "C16/"+sc.name == h {
+					sc := sc
+					return sc.body
+				}
+			}
+			return nil
+		}}
+}
+
 // kReplay re-executes an operation-history counterexample of the K space.
 func kReplay(prop string) func(v *Viol) []string {
 	return func(v *Viol) []string {
